@@ -66,7 +66,8 @@ def run (j : Json) : Except String Json := do
   -- tie: the message is the header, the model's trace at the default width, then the traceback lines
   let msgWidth := ((← j.getObjVal? "impl").getObjValAs? Nat "msg_width").toOption
   let msgAgree := match message, msgWidth with
-    | some m, some w => strFailed || isPrefix (messageHead evs errText rootError w) m.toList
+    | some m, some w => strFailed ||
+        isPrefix (msgHeader ++ (if w == width then model else traceText evs errText rootError w).toList ++ ['\n']) m.toList
     | _, _ => true
   let traceOK := checkC05 evs errText rootError impl
   let holds := !strFailed && !unrendered && traceOK && tailOK && msgOK
